@@ -11,6 +11,16 @@ def main():
     assert tables.words([1, 0, 1], 32) == [0xA000, 0]
     assert tables.words([1] * 17, 32) == [0xffff, 0x8000]
     assert tables.words([0] * 127 + [1], 128)[-1] == 1
+    import gzip, json, fsm, vlib
+    tp = os.path.join(vlib.SPEC, "tour", "MCRtrSocketCover.json.gz")
+    try:
+        with gzip.open(tp, "rt") as f:
+            dg = json.load(f).get("digest")
+    except (OSError, ValueError):
+        dg = None
+    if dg != fsm.tour_digest():
+        print("note: spec/tour/MCRtrSocketCover.json.gz was made from other spec files (digest %s, now %s): the protocol checks "
+              "will regenerate the transition tour (about 5 minutes, cached under build/cache); run tools/gen_tour.py and commit" % (dg, fsm.tour_digest()))
     print("selftest ok")
 
 
